@@ -1,0 +1,19 @@
+//go:build verif
+
+package query
+
+import (
+	"time"
+
+	"github.com/lindb/lindb/internal/concurrent"
+	"github.com/lindb/lindb/internal/linmetric"
+	"github.com/lindb/lindb/metrics"
+)
+
+// VerifNewTaskManager creates a task manager whose worker pool has the given number of workers
+// (one worker handles the responses in the order they are received). Verification hook only.
+func VerifNewTaskManager(name string, workers int) TaskManager {
+	pool := concurrent.NewPool(name, workers, time.Second,
+		metrics.NewConcurrentStatistics(name, linmetric.BrokerRegistry))
+	return NewTaskManager(pool, linmetric.BrokerRegistry)
+}
